@@ -216,6 +216,9 @@ type Scenario struct {
 	Inputs []Label    `json:"inputs"`
 	Convs  []FuncSpec `json:"convs"`
 	Target FuncSpec   `json:"target"`
+	// AllowDup lets two converters share a Go function type (the resolver
+	// then only sees the first; both are still "supplied converters").
+	AllowDup bool `json:"allowdup,omitempty"`
 }
 
 func (s Scenario) String() string {
@@ -540,10 +543,21 @@ func (w *World) Build(fi int, spec FuncSpec, r *rand.Rand, extra ...am.Arg) (*Bu
 		if err != nil {
 			return nil, err
 		}
+		// BuildFunc documents nil as "no values": use it for empty lists
+		// half of the time
+		if len(spec.In) == 0 && r.Intn(2) == 0 {
+			inSet = nil
+		}
+		if len(spec.Out) == 0 && r.Intn(2) == 0 {
+			outSet = nil
+		}
 		sp := spec
 		cb := func(in, out *am.ValueSet) error {
 			enterNs := w.enter(fi)
-			vals := in.Values()
+			var vals []am.Value
+			if in != nil {
+				vals = in.Values()
+			}
 			obs := make([]ArgObs, len(sp.In))
 			for i, l := range sp.In {
 				if i < len(vals) {
@@ -704,7 +718,7 @@ func Instantiate(s Scenario, r *rand.Rand) (*Inst, error) {
 		if err != nil {
 			return nil, fmt.Errorf("conv %d: %w", i, err)
 		}
-		if seen[b.Type] {
+		if seen[b.Type] && !s.AllowDup {
 			return nil, errDupType
 		}
 		seen[b.Type] = true
